@@ -64,6 +64,17 @@ CHECKS = {
             "File contents are typedef/macro only; names outside the property's list ('=' and ':' which make cannot express) are "
             "not generated; header_contents inputs are not files and are allowed either way.",
             "6/C17"),
+    "C03": ("model_checking",
+            "exhaustive enumeration of every (storage size, bit offset, bit width) triple through all eight accessor entry points "
+            "of the real bitfield_unit.rs against a bit-vector reference model (release + debug-assertions builds); generated "
+            "records with bit-field runs compared C-vs-Rust by executed transcripts",
+            "(a) The current tree's bitfield_unit.rs is compiled into a sweep program; every triple that fits in 1..=16 bytes of "
+            "storage is exercised through get/set/raw_get/raw_set and the const-generic forms on three fills with values that set "
+            "and clear every bit, and every bit of the storage is compared with a Vec<bool> model. (b) bit-field runs in generated "
+            "structs/unions are written on one side (C or Rust) and read on the other.",
+            "Little-endian host only; values are a bit-position-complete alphabet rather than all 2^64; the known ninth-byte "
+            "defect is attributed by the closed-form predicate offset%8+width>64.",
+            "6/C03"),
 }
 
 NOT_YET = "check not built yet in this round (see DESIGN.md section 10a for the plan)"
